@@ -36,7 +36,7 @@ Lemma extract_lines_mut tags :
   (forall l, lines_ok l -> forall s, map strip_comments (ex_nodes tags l s) = flat_map reported (visited l)).
 Proof.
   apply node_nodes_ind.
-  - intros content _ s. reflexivity.
+  - intros content _ s. cbn [ex_node visited_node flat_map]. destruct (intc s && is_blank_text content); reflexivity.
   - intros line text _ s. cbn [ex_node visited_node flat_map]. destruct (intc s); [reflexivity|].
     destruct (filter _ tags); reflexivity.
   - intros k line c H s. cbn [ex_node visited_node flat_map lines_ok_node] in *. rewrite app_nil_r.
@@ -90,7 +90,7 @@ Proof.
   - reflexivity.
   - cbn [no_code] in H. apply andb_true_iff in H as [Hn Hr]. cbn [ex_nodes].
     destruct n; try discriminate; cbn [ex_node].
-    + apply IH; exact Hr.
+    + destruct (intc s && is_blank_text content); apply IH; exact Hr.
     + destruct (intc s); [apply IH; exact Hr|]. destruct (filter _ tags); apply IH; exact Hr.
     + apply IH; exact Hr.
     + apply IH; exact Hr.
@@ -112,14 +112,15 @@ Definition single_line (v : str) : Prop := v <> [] /\ forallb (fun c => negb (c 
 
 (* a tagged single-line comment on the line directly above a construct is attached to all its
    messages; one line further up, it is attached to none *)
-Theorem comment_attaches_when_immediately_before tags k lc text line c r t :
-  single_line (strip text) -> filter (fun t0 => starts_with t0 (strip text)) tags = [t] -> 1 <= lc ->
-  ex_nodes tags (NCons (NComment lc text) (NCons (NCodeNode k line c) r)) est0 =
+Theorem comment_attaches_when_immediately_before tags k lc text line c r t s :
+  intc s = false ->
+  single_line (strip text) -> filter (fun t0 => starts_with t0 (strip text)) tags = t :: nil -> 1 <= lc ->
+  ex_nodes tags (NCons (NComment lc text) (NCons (NCodeNode k line c) r)) s =
     (if lc <? line - 1 then map (fun km => ((line - 1) + ((fst km + 2) - 1), snd km, [])) c
      else map (fun km => ((line - 1) + ((fst km + 2) - 1), snd km, [strip text])) c)
     ++ ex_nodes tags r {| tc := match c with [] => if lc <? line - 1 then [] else [(lc, strip text)] | _ => [] end; intc := false |}.
 Proof.
-  intros [Hne Hsl] Hf Hlc. cbn [ex_nodes ex_node est0 intc tc]. rewrite Hf. cbn [flat_map app].
+  intros Hs [Hne Hsl] Hf Hlc. cbn [ex_nodes ex_node]. rewrite Hs, Hf. cbn [intc tc app].
   unfold split_comment. rewrite (split_lines_single (strip text) [] Hsl) by (cbn [app]; exact Hne).
   cbn [app number_from]. rewrite ?app_nil_r.
   assert (Hproc : forall s0, tc s0 = [(lc, strip text)] ->
@@ -135,3 +136,17 @@ Theorem untagged_comment_is_ignored tags lc text rest s :
   intc s = false -> filter (fun t0 => starts_with t0 (strip text)) tags = [] ->
   ex_nodes tags (NCons (NComment lc text) rest) s = ex_nodes tags rest s.
 Proof. intros Hi Hf. cbn [ex_nodes ex_node]. rewrite Hi, Hf. reflexivity. Qed.
+
+(* text that is not blank closes a block of translator comments: an ordinary comment after it is
+   not a continuation, whatever came before *)
+Theorem text_closes_comment_block tags content lc text rest s :
+  is_blank_text content = false -> filter (fun t0 => starts_with t0 (strip text)) tags = [] ->
+  ex_nodes tags (NCons (NText content) (NCons (NComment lc text) rest)) s = ex_nodes tags rest {| tc := tc s; intc := false |}.
+Proof.
+  intros Hb Hf. cbn [ex_nodes ex_node]. rewrite Hb, andb_false_r. cbn [intc]. rewrite Hf. reflexivity.
+Qed.
+
+(* a construct uses the comment block up: whether or not it had a message, the block is closed
+   afterwards *)
+Theorem construct_closes_comment_block line c s : intc (snd (process line c s)) = false.
+Proof. reflexivity. Qed.
